@@ -164,7 +164,7 @@ func entryLocks(c *Ctx, fn *ssa.Function, depth int) lockset {
 				rp := path(mc.Bindings[0])
 				for lk, mode := range heldAroundParam(c, call, ai, depth) {
 					if strings.HasPrefix(lk, rp+".") && len(fn.Params) > 0 {
-						tr[fn.Params[0].Name()+lk[len(rp):]] = mode
+						tr[pname(fn.Params[0])+lk[len(rp):]] = mode
 					}
 				}
 				if res == nil {
@@ -198,7 +198,7 @@ func entryLocks(c *Ctx, fn *ssa.Function, depth int) lockset {
 				for i, a := range call.Call.Args {
 					ap := path(a)
 					if strings.HasPrefix(lk, ap+".") && i < len(fn.Params) {
-						tr[fn.Params[i].Name()+lk[len(ap):]] = mode
+						tr[pname(fn.Params[i])+lk[len(ap):]] = mode
 					}
 				}
 			}
@@ -289,7 +289,7 @@ func deepLocks(root *ssa.Function, d deepInstr) lockset {
 			for i, a := range call.Call.Args {
 				ap := path(a)
 				if strings.HasPrefix(lk, ap+".") && i < len(cal.Params) {
-					next[cal.Params[i].Name()+lk[len(ap):]] = mode
+					next[pname(cal.Params[i])+lk[len(ap):]] = mode
 					translated = true
 				}
 			}
@@ -360,7 +360,7 @@ func heldAroundParam(c *Ctx, call *ssa.Call, ai int, depth int) lockset {
 	for lk, mode := range res {
 		for i, a := range call.Call.Args {
 			if i < len(h.Params) {
-				pn := h.Params[i].Name()
+				pn := pname(h.Params[i])
 				if strings.HasPrefix(lk, pn+".") {
 					out[path(a)+lk[len(pn):]] = mode
 				}
